@@ -20,9 +20,11 @@ RULE = (
     "Non-trivial = stream carries a body or a mutation.  distinct = stream bytes."
 )
 ASSUMPTIONS = [
-    "DON'T-CARE (three-valued oracle): control bytes in the request-target, HTTP major version != 1, CONNECT, unusual "
-    "absolute-form authorities, duplicates of documented singleton headers other than Host/Content-Length/"
-    "Transfer-Encoding, BWS before a chunk extension, Transfer-Encoding in HTTP/1.0, bytes after a message that asked to close",
+    "DON'T-CARE (three-valued oracle): HTTP major version != 1, CONNECT, unusual absolute-form authorities and schemes that "
+    "do not start with a letter, duplicates of documented singleton headers other than Host/Content-Length/"
+    "Transfer-Encoding, BWS before a chunk extension, a non-ASCII unknown transfer coding before a final chunked, malformed "
+    "chunk framing inside an HTTP/1.0 chunked body (the message itself is decided: reject or the de-chunked body, verdict te10), "
+    "bytes after a message that asked to close, Content-Length with more digits than any body could have",
     "for mutated and raw streams a rejection by aiohttp of something the reference accepts is counted (stricter_than_reference) but not a violation; for unmutated grammar output it is",
 ]
 
